@@ -20,6 +20,14 @@ func endsInCloseTag(t *token.Token) bool {
 }
 
 // semi draws a statement terminator: ";" or one of the close-tag spellings the lexer folds into it.
+// altSemi terminates an alternative-syntax statement (endif; endwhile; ...).
+func (g *Gen) altSemi() *token.Token {
+	if g.O.NoAltCloseTag {
+		return g.ch(';')
+	}
+	return g.semi()
+}
+
 func (g *Gen) semi() *token.Token {
 	if !g.O.NoHTML && g.inClass == 0 && g.chance(1, 14, "closetag") {
 		g.feat("close-tag-terminator")
@@ -64,7 +72,7 @@ func (g *Gen) StmtList(min, max int, top bool) []ast.Vertex {
 		out = append(out, s)
 		html = false
 		lt := lastToken(s)
-		if !g.O.NoHTML && g.inClass == 0 && lt != nil && (lt.ID == token.ID('}') || lt.ID == token.ID(':')) && g.chance(1, 10, "nopclose") {
+		if !g.O.NoHTML && g.inClass == 0 && lt != nil && (lt.ID == token.ID('}') || lt.ID == token.ID(':')) && !g.O.NoAltCloseTag && g.chance(1, 10, "nopclose") {
 			// "?>" after a statement that does not end in ";" is an empty statement of its own
 			g.feat("stmt:nop-close-tag")
 			nop := &ast.StmtNop{SemiColonTkn: g.tok(token.ID(';'), g.pick("closetag", "?>", "?>\n", "?>\r\n"))}
@@ -114,6 +122,32 @@ func openIf(s ast.Vertex) bool {
 	return false
 }
 
+// endsInAltIf reports whether s ends in an alternative-syntax if (directly or as the trailing body of plain-syntax statements).
+func endsInAltIf(s ast.Vertex) bool {
+	switch v := s.(type) {
+	case *ast.StmtIf:
+		if v.ColonTkn != nil {
+			return true
+		}
+		if v.Else != nil {
+			return endsInAltIf(v.Else.(*ast.StmtElse).Stmt)
+		}
+		if k := len(v.ElseIf); k > 0 {
+			return endsInAltIf(v.ElseIf[k-1].(*ast.StmtElseIf).Stmt)
+		}
+		return endsInAltIf(v.Stmt)
+	case *ast.StmtWhile:
+		return v.ColonTkn == nil && endsInAltIf(v.Stmt)
+	case *ast.StmtFor:
+		return v.ColonTkn == nil && endsInAltIf(v.Stmt)
+	case *ast.StmtForeach:
+		return v.ColonTkn == nil && endsInAltIf(v.Stmt)
+	case *ast.StmtDeclare:
+		return v.ColonTkn == nil && v.Stmt != nil && endsInAltIf(v.Stmt)
+	}
+	return false
+}
+
 // body draws the body of a control structure: a block or a single statement.
 func (g *Gen) ctlBody() ast.Vertex {
 	if g.flip("blockbody") {
@@ -125,6 +159,10 @@ func (g *Gen) ctlBody() ast.Vertex {
 
 // guardElse braces a body that would capture a following else.
 func (g *Gen) guardElse(body ast.Vertex) ast.Vertex {
+	if g.O.BraceAltIfBeforeElse && endsInAltIf(body) {
+		g.Excl["formatter-dangling-else"]++
+		return &ast.StmtStmtList{OpenCurlyBracketTkn: g.ch('{'), Stmts: []ast.Vertex{body}, CloseCurlyBracketTkn: g.ch('}')}
+	}
 	if openIf(body) {
 		g.feat("dangling-else-guarded")
 		return &ast.StmtStmtList{OpenCurlyBracketTkn: g.ch('{'), Stmts: []ast.Vertex{body}, CloseCurlyBracketTkn: g.ch('}')}
@@ -173,7 +211,7 @@ func (g *Gen) ifStmt() ast.Vertex {
 			}
 		}
 		n.EndIfTkn = g.kw(token.T_ENDIF, "endif")
-		n.SemiColonTkn = g.semi()
+		n.SemiColonTkn = g.altSemi()
 		return n
 	}
 	n.Stmt = g.ctlBody()
@@ -198,7 +236,7 @@ func (g *Gen) ifStmt() ast.Vertex {
 	// dangling else: every body that is followed by elseif/else must not end in an open if
 	followers := len(n.ElseIf) > 0 || n.Else != nil
 	if followers {
-		if openIf(n.Stmt) {
+		if openIf(n.Stmt) || (g.O.BraceAltIfBeforeElse && endsInAltIf(n.Stmt)) {
 			n.Stmt = g.guardElse(n.Stmt)
 		} else if _, isIf := n.Stmt.(*ast.StmtIf); isIf {
 			g.feat("dangling-else-nearest")
@@ -302,7 +340,7 @@ func (g *Gen) stmt(top, decl bool) ast.Vertex {
 		n.OpenParenthesisTkn, n.Cond, n.CloseParenthesisTkn = g.parenExpr()
 		if g.chance(1, 4, "alt") {
 			g.feat("alt-syntax")
-			n.ColonTkn, n.Stmt, n.EndWhileTkn, n.SemiColonTkn = g.ch(':'), g.loopAlt(), g.kw(token.T_ENDWHILE, "endwhile"), g.semi()
+			n.ColonTkn, n.Stmt, n.EndWhileTkn, n.SemiColonTkn = g.ch(':'), g.loopAlt(), g.kw(token.T_ENDWHILE, "endwhile"), g.altSemi()
 		} else {
 			n.Stmt = g.loopBody()
 		}
@@ -321,7 +359,7 @@ func (g *Gen) stmt(top, decl bool) ast.Vertex {
 		n.Loop, n.LoopSeparatorTkns = g.exprList(0, 2)
 		if g.chance(1, 4, "alt") {
 			g.feat("alt-syntax")
-			n.ColonTkn, n.Stmt, n.EndForTkn, n.SemiColonTkn = g.ch(':'), g.loopAlt(), g.kw(token.T_ENDFOR, "endfor"), g.semi()
+			n.ColonTkn, n.Stmt, n.EndForTkn, n.SemiColonTkn = g.ch(':'), g.loopAlt(), g.kw(token.T_ENDFOR, "endfor"), g.altSemi()
 		} else {
 			n.Stmt = g.loopBody()
 		}
@@ -344,7 +382,7 @@ func (g *Gen) stmt(top, decl bool) ast.Vertex {
 		}
 		if g.chance(1, 4, "alt") {
 			g.feat("alt-syntax")
-			n.ColonTkn, n.Stmt, n.EndForeachTkn, n.SemiColonTkn = g.ch(':'), g.loopAlt(), g.kw(token.T_ENDFOREACH, "endforeach"), g.semi()
+			n.ColonTkn, n.Stmt, n.EndForeachTkn, n.SemiColonTkn = g.ch(':'), g.loopAlt(), g.kw(token.T_ENDFOREACH, "endforeach"), g.altSemi()
 		} else {
 			n.Stmt = g.loopBody()
 		}
@@ -515,7 +553,7 @@ func (g *Gen) switchStmt() ast.Vertex {
 	}
 	g.inLoop--
 	if alt {
-		n.EndSwitchTkn, n.SemiColonTkn = g.kw(token.T_ENDSWITCH, "endswitch"), g.semi()
+		n.EndSwitchTkn, n.SemiColonTkn = g.kw(token.T_ENDSWITCH, "endswitch"), g.altSemi()
 	} else {
 		n.CloseCurlyBracketTkn = g.ch('}')
 	}
@@ -568,7 +606,7 @@ func (g *Gen) declareStmt() ast.Vertex {
 		n.Stmt = &ast.StmtNop{SemiColonTkn: g.semi()}
 	case 1:
 		g.feat("alt-syntax")
-		n.ColonTkn, n.Stmt, n.EndDeclareTkn, n.SemiColonTkn = g.ch(':'), g.altList(), g.kw(token.T_ENDDECLARE, "enddeclare"), g.semi()
+		n.ColonTkn, n.Stmt, n.EndDeclareTkn, n.SemiColonTkn = g.ch(':'), g.altList(), g.kw(token.T_ENDDECLARE, "enddeclare"), g.altSemi()
 	case 2:
 		n.Stmt = g.block()
 	default:
